@@ -88,7 +88,7 @@ def streams(tier, rng):
         resp = vf.unhx(out.split(' W')[1].split(' ')[0]) if ' W' in out else b''
         e = check_response(resp, code, t, tbl, fb)
         return [('error-response', e + ' | code %d text %r' % (code, t))] if e else []
-    yield {'name': 'result-error', 'cases': cases, 'oracle': oracle, 'nontrivial': lambda c, o: c if (b'"' in (info[c][1] or b'') or len(o) > 500) else None}
+    yield {'name': 'result-error', 'coqcheck': True, 'cases': cases, 'oracle': oracle, 'nontrivial': lambda c, o: c if (b'"' in (info[c][1] or b'') or len(o) > 500) else None}
     # through the queue: push + SYST:ERR?, both configurations
     for flavor in ('default', 'static'):
         qc, qi = [], {}
